@@ -281,7 +281,7 @@ theorem codeShapes_atomic (o : OpShape) (ho : o ∈ codeShapes) (hk : o.kind = .
   · exact ⟨Or.inr ⟨h1, h2, h3⟩, by simp [agrees, h2, h3], h4⟩
 
 /-- the table is not empty and has manager entries with mirrors -/
-example : codeShapes.length = 52 ∧ (codeShapes.filter (·.mirrored)).length = 10 := by decide
+example : codeShapes.length = 51 ∧ (codeShapes.filter (·.mirrored)).length = 9 := by decide
 
 /-! ### the deviant shapes: mirror written before the store call -/
 
@@ -485,6 +485,45 @@ theorem codeShapes_batched (o : OpShape) (_ho : o ∈ codeShapes) (hk : o.kind =
   have hexp : o.expand ns = batches ns := by simp [OpShape.expand, hk]
   rw [hexp]
   exact batched_prefix m ns k (quiescent view d0) rfl
+
+/-! ### the indexer loop as it is written: follow-up actions between the commit and the in-memory tip -/
+
+/-- `beginTx stmt^n commit` (the batch), then another `beginTx stmt^p commit`
+(the ProcessActions calls) and only then the mirror write: a failure at ANY
+database call of the follow-up part reports an error with the batch committed
+and the mirror still at its old value. -/
+theorem post_commit_fallible_not_atomic (m : Sem α β) (view : α → β) (n p : Nat) (d0 : α) (j : Nat)
+    (hj1 : n + 2 ≤ j) (hj2 : j < n + 2 + (p + 2)) :
+    (exec m (singleTx n [] ++ singleTx p [.memWrite]) (some j) (quiescent view d0)).2 = .failed ∧
+    (exec m (singleTx n [] ++ singleTx p [.memWrite]) (some j) (quiescent view d0)).1.db = iter m.eff 0 n d0 ∧
+    (exec m (singleTx n [] ++ singleTx p [.memWrite]) (some j) (quiescent view d0)).1.mirror = view d0 := by
+  rcases exec_singleTx m n [] (by simp) (some j) (quiescent view d0) rfl with ⟨⟨j', hj', hlt⟩, _⟩ | ⟨hk, h1, h2, h3, h4⟩
+  · cases hj'; omega
+  · have hfc := fallibleCount_singleTx n [] (by simp)
+    rw [exec_append_done m _ _ _ (some j) h1 (by rw [hfc]; exact hk)]
+    simp only [Option.map_some, hfc]
+    rcases exec_singleTx m p [.memWrite] (by simp [Step.isMirror]) (some (j - (n + 2)))
+        (exec m (singleTx n []) (some j) (quiescent view d0)).1 h4 with ⟨_, g1, g2, g3, _⟩ | ⟨gk, _⟩
+    · refine ⟨g1, ?_, ?_⟩
+      · rw [g2, h2]; rfl
+      · rw [g3, h3]; simp [quiescent]
+    · have := gk (j - (n + 2)) rfl; omega
+
+/-- … so the in-memory tip disagrees with the persisted marker whenever the batch moved it -/
+theorem post_commit_fallible_disagrees (m : Sem α β) (view : α → β) (n p : Nat) (d0 : α) (j : Nat)
+    (hj1 : n + 2 ≤ j) (hj2 : j < n + 2 + (p + 2)) (hmoved : view (iter m.eff 0 n d0) ≠ view d0) :
+    ¬ agrees view (exec m (singleTx n [] ++ singleTx p [.memWrite]) (some j) (quiescent view d0)).1 := by
+  obtain ⟨_, h2, h3⟩ := post_commit_fallible_not_atomic m view n p d0 j hj1 hj2
+  simp only [agrees, h2, h3]
+  exact fun h => hmoved h.symm
+
+/-- the entry of `index.Manager.syncDB` in the table of deviant shapes has this form -/
+example : (deviantShapes.filter (·.name == "I.SyncDB")).map (fun o => o.expand [3]) =
+    [singleTx 3 [] ++ singleTx 1 [.memWrite]] := by decide
+
+/-- with the tip written directly after the commit (the proposed repair) the batch is of the all-or-nothing form -/
+example : entryOK { name := "I.SyncDB", src := "", kind := .indexer, pre := [], post := [.memWrite], mirrored := true } = true := by
+  decide
 
 /-- shapes without data steps leave the data plane alone -/
 theorem exec_preserves_data (m : Sem α β) (sh : Shape) (hsh : ∀ x ∈ sh, x ≠ .dataWrite ∧ x ≠ .sync)
